@@ -209,7 +209,8 @@ fn gen(r: &mut StdRng) -> Value {
         if i > 0 && r.gen_bool(0.4) {
             let j = r.gen_range(0..i);
             e["speed"] = edges[j]["speed"].clone();
-            e["grade"] = edges[j]["grade"].clone();
+            // ... sometimes the same slope in the other direction
+            e["grade"] = if r.gen_bool(0.35) { json!(-edges[j]["grade"].as_f64().unwrap()) } else { edges[j]["grade"].clone() };
         }
         edges.push(e);
     }
